@@ -33,6 +33,8 @@ inductive Err where
   | unsupportedType
   /-- "field %d not recognized, has %s, want %s" (index in the list, 1-based for fields) -/
   | fieldNotRecognized (i : Nat)
+  /-- "invalid message: not a list": `decodeList` got something that is not a `[]any` -/
+  | notAList
   /-- the codec itself rejected the bytes -/
   | decode
   deriving DecidableEq, Repr, Inhabited
@@ -126,7 +128,8 @@ def msgToList (m : Msg) : Res (List CVal) :=
 
 /-! ### listToMsg -/
 
-/-- `AssignableTo || ConvertibleTo`, and the value stored, for a non-nil list item. -/
+/-- `AssignableTo`, or `ConvertibleTo` together with the guard the source puts on the conversion
+    (`Gen.convertGuard`, regenerated from listToMsg), and the value stored, for a non-nil list item. -/
 def convertTo : GoKind → CVal → Option CVal
   -- wamp.ID (uint64): integers wrap, floats truncate
   | .uint64, .int i => some (.int (wrapU64 i))
@@ -134,10 +137,18 @@ def convertTo : GoKind → CVal → Option CVal
   -- wamp.MessageType (int)
   | .int, .int i => some (.int (wrapI64 i))
   | .int, .float b => some (.int (f2i b))
-  -- string / wamp.URI: strings; integers become a one-rune string (!); []byte converts
+  -- string / wamp.URI: strings.  Go can also convert an integer (to a one-rune string) and a
+  -- []byte: taken only when the conversion is not guarded by
+  -- `f.Kind() != reflect.String || arg.Kind() == reflect.String`
   | .string, .str s => some (.str s)
-  | .string, .int i => some (.str (intToString i))
-  | .string, .bin b => some (.str b)
+  | .string, .int i =>
+    (match Gen.convertGuard with
+     | .unguarded => some (.str (intToString i))
+     | .stringFromStringOnly => none)
+  | .string, .bin b =>
+    (match Gen.convertGuard with
+     | .unguarded => some (.str b)
+     | .stringFromStringOnly => none)
   -- wamp.Dict: map[string]any is assignable
   | .mapStringAny, .dict d => some (.dict d)
   -- wamp.List: []any is assignable
